@@ -680,3 +680,152 @@ def show(node):
             text += f'.limit({node["rows"][0]}, {node["rows"][1]})'
         return text if text != show(node['l']) else text + '.query'
     return '?'
+
+
+# ------------------------------------------------------------------------------------------------ push-down hints (C14)
+def recorder_class():
+    """Subclass of the real alchemy.Parser that RECORDS the hints offered to ``generate_table`` (public extension
+    point) without changing the generated code: per call the table, the offered column names and the offered
+    predicate - as the DSL objects of the context segment (public ``context.tables[source]``; projected to ASTs) and
+    as the target code actually passed (column names, predicate text in the SQLite dialect)."""
+    from sqlalchemy.dialects import sqlite
+    from forml.provider.feed.reader import alchemy
+
+    class Recorder(alchemy.Parser):
+        def __init__(self, sources, features):
+            super().__init__(sources, features)
+            self.calls = []
+            self._pending = None
+
+        def visit_table(self, source):
+            segment = self.context.tables[source]
+            pred = segment.predicate
+            self._pending = {'table': g.project(source), 'cols': sorted(f.name for f in segment.fields),
+                             'pred': g.NIL_F if pred is None else g.project(pred)}
+            super().visit_table(source)
+
+        def generate_table(self, table, features, predicate):
+            rec, self._pending = self._pending or {'table': None, 'cols': None, 'pred': None}, None
+            rec['target_cols'] = sorted(f.name for f in features)
+            rec['target_pred'] = None if predicate is None else str(
+                predicate.compile(dialect=sqlite.dialect(), compile_kwargs={'literal_binds': True}))
+            self.calls.append(rec)
+            return super().generate_table(table, features, predicate)
+
+    return Recorder
+
+
+_RECORDER = None
+
+
+def record_hints(ast, sources=None):
+    """Parse the statement with the recording parser.  Returns {'res': 'ok' | 'parse:<T>' | 'build:<T>', 'hints': [...],
+    'err'}: hints = one {path, table, cols, pred, target_cols, target_pred} per generate_table call, paths assigned in
+    visit order (``occurrences``); 'mismatch' when the calls do not line up with the statement's table occurrences."""
+    global _RECORDER  # pylint: disable=global-statement
+    if _RECORDER is None:
+        _RECORDER = recorder_class()
+    stage = 'build'
+    try:
+        stmt = g.build(ast)
+        stage = 'parse'
+        tables = sources or {g.build(node): None for _, node in occurrences(ast)}
+        import sqlalchemy
+        from sqlalchemy import sql
+        mapping = {t: sqlalchemy.table(sql.quoted_name(t.schema.__name__, quote=True)) for t in tables}
+        with _RECORDER(mapping, {}) as visitor:
+            stmt.accept(visitor)
+            visitor.fetch()
+        calls = visitor.calls
+    except Exception as exc:  # pylint: disable=broad-except
+        return {'res': f'{stage}:{type(exc).__name__}', 'hints': [], 'err': f'{type(exc).__name__}: {exc}'[:200]}
+    occ = occurrences(ast)
+    if len(occ) != len(calls) or any(g.canon(node) != g.canon(c['table']) for (_, node), c in zip(occ, calls)):
+        return {'res': 'mismatch', 'hints': [], 'err': f'{len(calls)} generate_table calls for {len(occ)} occurrences'}
+    hints = []
+    for (path, node), call in zip(occ, calls):
+        hints.append({'path': path, 'table': node, 'cols': call['cols'], 'pred': call['pred'],
+                      'target_cols': call['target_cols'], 'target_pred': call['target_pred']})
+    return {'res': 'ok', 'hints': hints, 'err': None}
+
+
+def _rt_feature(feature, handles):
+    if feature['f'] == 'nil':
+        return feature
+    if feature['f'] == 'col':
+        key = g.canon(feature['src'])
+        return g.col(handles[key], feature['name']) if key in handles else feature
+    out = dict(feature)
+    out['args'] = [_rt_feature(a, handles) for a in feature['args']]
+    return out
+
+
+def _rt_source(src, names, path):
+    t = src['t']
+    if t == 'table':
+        new = g.table(names[path], src['cols']) if path in names else src
+        return new, {g.canon(src): new}
+    if t == 'ref':
+        inner, _ = _rt_source(src['l'], names, path + '/l')
+        new = g.ref(inner, src['name'])
+        return new, {g.canon(src): new}
+    if t == 'join':
+        left, ml = _rt_source(src['l'], names, path + '/l')
+        right, mr = _rt_source(src['r'], names, path + '/r')
+        handles = {**ml, **mr}
+        return g.join(left, right, src['kind'], _rt_feature(src['on'], handles)), handles
+    if t == 'set':
+        sides = []
+        for side in ('l', 'r'):
+            operand = src[side] if src[side]['t'] in ('query', 'set') else g.query(src[side])
+            sides.append(_rt_source(operand, names, path + '/' + side)[0])
+        new = g.setop(sides[0], sides[1], src['kind'])
+        return new, {g.canon(src): new}
+    origin, handles = _rt_source(src['l'], names, path + '/l')
+    new = g.query(origin, [_rt_feature(x, handles) for x in src['sel']], _rt_feature(src['where'], handles),
+                  [_rt_feature(x, handles) for x in src['group']], _rt_feature(src['having'], handles),
+                  [g.order_term(_rt_feature(o['x'], handles), o['dir']) for o in src['order']], src['rows'] or None)
+    return new, {g.canon(src): new}
+
+
+def retarget(ast, names):
+    """The same statement with the table occurrence at each path of ``names`` replaced by a table of that new name
+    (same fields); elements addressing the occurrence follow it.  Used to run a statement over per-occurrence
+    restricted copies of the tables."""
+    return _rt_source(ast, names, '')[0]
+
+
+def run_hinted(ast, hints, conn, catalog=None):
+    """Rows of the statement on SQLite when every table occurrence delivers only what its recorded hint allows:
+    the offered columns (the others NULL) of the rows passing the offered predicate (the target code text the parser
+    passed to generate_table).  Returns {'res': 'ok' | 'exec:<T>', 'rows': [...]}."""
+    import sqlalchemy
+    from sqlalchemy import sql
+    catalog = catalog or g.CATALOG
+    names, created = {}, []
+    try:
+        for n, hint in enumerate(hints):
+            table = hint['table']['name']
+            new = f'{table}__{n}'
+            cols = ', '.join(f'"{c}"' if c in hint['target_cols'] else f'CAST(NULL AS {SQLTYPE[k]}) AS "{c}"'
+                             for c, k in hint['table']['cols'])
+            where = f' WHERE {hint["target_pred"]}' if hint['target_pred'] else ''
+            conn.execute(sqlalchemy.text(f'CREATE TEMP TABLE "{new}" AS SELECT {cols} FROM "{table}"{where}'))
+            created.append(new)
+            names[hint['path']] = new
+        twin = retarget(ast, names)
+        stmt = g.build(twin)
+        mapping = {g.build(node): sqlalchemy.table(sql.quoted_name(node['name'], quote=True)) for _, node in occurrences(twin)}
+        selectable = parse(stmt, None, mapping)
+        rows = [list(r) for r in conn.execute(selectable).fetchall()]
+        return {'res': 'ok', 'rows': enc_rows(rows, avg_positions(ast))}
+    except Exception as exc:  # pylint: disable=broad-except
+        return {'res': f'exec:{type(exc).__name__}', 'rows': [], 'err': f'{type(exc).__name__}: {exc}'[:300]}
+    finally:
+        conn.rollback()
+        for new in created:
+            try:
+                conn.execute(sqlalchemy.text(f'DROP TABLE IF EXISTS "{new}"'))
+            except Exception:  # pylint: disable=broad-except
+                pass
+        conn.commit()
